@@ -129,13 +129,17 @@ func TestReplay(t *testing.T) {
 	ev.Guard(func() { runCase(t, &c, "replay") })
 }
 
-func routers(proto string) func(cluster string) []v2.Router {
+func routers(proto string, retryOn bool) func(cluster string) []v2.Router {
 	return func(cluster string) []v2.Router {
 		mk := func(m v2.RouterMatch, tag string) v2.Router {
-			return v2.Router{RouterConfig: v2.RouterConfig{Match: m, Route: v2.RouteAction{RouterActionConfig: v2.RouterActionConfig{
+			r := v2.Router{RouterConfig: v2.RouterConfig{Match: m, Route: v2.RouteAction{RouterActionConfig: v2.RouterActionConfig{
 				ClusterName:         cluster,
 				RequestHeadersToAdd: []*v2.HeaderValueOption{{Header: &v2.HeaderValue{Key: routeHdr, Value: tag}}},
 			}}}}
+			if retryOn {
+				r.Route.RetryPolicy = &v2.RetryPolicy{RetryPolicyConfig: v2.RetryPolicyConfig{RetryOn: true, NumRetries: 2}}
+			}
+			return r
 		}
 		odd := v2.HeaderMatcher{Name: rmHdr, Value: "odd"}
 		if proto == "Http1" {
@@ -157,6 +161,9 @@ var letterClass = map[byte]string{'H': "hijack", 'B': "hijack-with-body", 'D': "
 func record(c *chainCase, partName string) {
 	nonTriv := false
 	classes := []string{"proto:" + c.Proto}
+	if c.RetryOn {
+		classes = append(classes, "route:retry-on")
+	}
 	seen := map[string]bool{}
 	add := func(l string) {
 		if !seen[l] {
@@ -347,7 +354,7 @@ func execute(t ev.TB, c *chainCase) ([]string, []observed) {
 	for j := 0; j < c.Send; j++ {
 		filters = append(filters, v2.Filter{Type: filterType, Config: map[string]interface{}{"case": cid, "kind": "send", "index": j}})
 	}
-	cs, err := mesh.NewCase(mesh.Opts{Down: c.Proto, Up: c.Proto, Hosts: []string{up.Addr}, StreamFilters: filters, Routers: routers(c.Proto),
+	cs, err := mesh.NewCase(mesh.Opts{Down: c.Proto, Up: c.Proto, Hosts: []string{up.Addr}, StreamFilters: filters, Routers: routers(c.Proto, c.RetryOn),
 		Cluster: func(cl *v2.Cluster) { cl.LbType = lbType }})
 	if err != nil {
 		inconclusive(t, c, "mesh.NewCase: %v", err)
